@@ -1,7 +1,7 @@
 """Property -> rules.  The explanation/assumption texts end up in the evidence files."""
 from .rules import dtype, evalnodes, executor, aggregates, eqfaith, compiler_rules as cr
 from .rules import cursor_rules as cu, library_rules as lib, state_rules as st, grammar_rules as gr
-from .rules import table_rules as tb, clause_rules as cl, sx_exec as sx, sx_cursor as sxc, sx_compiler as sxk, sx_select as sxs, sx_pivot as sxp, sx_tables as sxt, sx_numberify as sxn, sx_state as sxst, sx_types as sxty, sx_library as sxl, sx_datebin as sxdb, sx_guards as sxg, sx_shell as sxsh, sx_aggclass as sxag
+from .rules import table_rules as tb, clause_rules as cl, sx_exec as sx, sx_cursor as sxc, sx_compiler as sxk, sx_select as sxs, sx_pivot as sxp, sx_tables as sxt, sx_numberify as sxn, sx_state as sxst, sx_types as sxty, sx_library as sxl, sx_datebin as sxdb, sx_guards as sxg, sx_shell as sxsh, sx_aggclass as sxag, sx_evalnodes as sxev
 
 TRUSTED_ABSINT = [
     "Python/library semantics of operators, attributes, methods and whitelisted callables are obtained by applying "
@@ -34,10 +34,10 @@ PROPS = {
             "condition is absent or true, appends once per row, evaluates every target on that row (R-ROWLOOP, 4 "
             "gate cases executed abstractly); FROM expression AND-ed with WHERE (R-FROMAND, 4 cases). Does not "
             "decide the numeric value of an operator application, regular-expression results or overload "
-            "resolution for nested expressions. The constant a cell computes with is the parameter written at that place: positional placeholders bind in textual order whatever the order clauses are compiled in (R-PLACEHOLDER). R-DIVGUARD and the operator terms of R-OPSEM are decided by interpreting each implementation on terms with a zero and a non-zero divisor: no division by the second operand is evaluated before the zero test, the zero case returns NULL, the other case returns the operation of the operator's name."),
+            "resolution for nested expressions. The constant a cell computes with is the parameter written at that place: positional placeholders bind in textual order whatever the order clauses are compiled in (R-PLACEHOLDER). R-DIVGUARD and the operator terms of R-OPSEM are decided by interpreting each implementation on terms with a zero and a non-zero divisor: no division by the second operand is evaluated before the zero test, the zero case returns NULL, the other case returns the operation of the operator's name. AND / OR / COALESCE are interpreted on terms for every operand list of length 1-3 over NULL, FALSE, TRUE, zero/empty and other values: the value is that of the truth table (NULL, FALSE or TRUE for AND / OR), operands are evaluated once, left to right, and evaluation stops where the statement says it stops (R-3VL). No evaluator writes state that outlives the row (write census, R-SHARED): a cell is computed from its row alone."),
         'assumptions': TRUSTED_STRUCT + TRUSTED_ABSINT[3:],
         'quick': [evalnodes.rule_nullstrict, evalnodes.rule_divguard, evalnodes.rule_promote, evalnodes.rule_opsem,
-                  evalnodes.rule_3vl, sx.rule_rowloop, sxk.rule_fromand, sxk.rule_implicitcast, gr.rule_precmatrix, sxst.rule_placeholder],
+                  sxev.rule_3vl, sx.rule_rowloop, sxk.rule_fromand, sxk.rule_implicitcast, gr.rule_precmatrix, sxst.rule_placeholder, st.rule_shared],
         'thorough': [],
     },
     'C02': {
@@ -51,9 +51,9 @@ PROPS = {
             "faithfulness of the structural node equality used to merge GROUP BY expressions with targets, for all "
             "evaluator classes and all column instances that can meet in one table (R-EQFAITH); grouping references "
             "validated against the domain they are resolved in (R-IDXBOUND) and hidden grouping targets nameless and "
-            "appended (R-HIDDEN). Does not decide numeric values of folds nor hashing/equality of key values."),
+            "appended (R-HIDDEN). Does not decide numeric values of folds nor hashing/equality of key values. Every aggregate node of a target expression is found, once per occurrence and left to right, by get_columns_and_aggregates (R-AGGCOLLECT): a node left out is never allocated, updated or finalized. R-AGGCLASS decides, on terms, the final state of the slot and the mutations of the accumulator object for every value x slot x order x state-query case of every aggregate class, and initialize / finalize / __call__. EvalNode.__eq__ itself holds iff same class and all __slots__ attributes equal (16 cases on terms)."),
         'assumptions': TRUSTED_STRUCT,
-        'quick': [sxs.rule_aggproto, sxag.rule_aggclass, eqfaith.rule_eqfaith, sxk.rule_idxbound, cr.rule_hidden],
+        'quick': [sxs.rule_aggproto, sxag.rule_aggclass, eqfaith.rule_eqfaith, sxk.rule_idxbound, cr.rule_hidden, sxg.rule_aggcollect],
         'thorough': [sxs.rule_aggproto_deep, sxk.rule_idxbound_deep],
     },
     'C03': {
@@ -88,10 +88,10 @@ PROPS = {
             "type (R-COALESCE, 36 type pairs executed); untyped operands are cast to the other side's type, decimal for "
             "int (R-IMPLICITCAST); in the thorough tier every overload is also run for the subclass operands that the "
             "MRO lookup admits (R-ADMITTED). Decides type conformance of declarations vs. implementations for all overloads; "
-            "does not decide values of dtype `object` nor conformance of ledger data to beancount's annotations. Also: the overload-resolution primitives of types.py (Any equals every class and not the `*` pseudo-type, the strict linearisation, first overload along it) behave as the registry model assumes (R-LOOKUP, 13 cases on terms), and every output column of both scan branches holds the value of its own target (R-ROWLOOP, R-AGGPROTO key layout). A subquery column announces the data type of the inner target whose row position it reads, with hidden, repeated and mixed-case inner names (R-VISFILTER)."),
+            "does not decide values of dtype `object` nor conformance of ledger data to beancount's annotations. Also: the overload-resolution primitives of types.py (Any equals every class and not the `*` pseudo-type, the strict linearisation, first overload along it) behave as the registry model assumes (R-LOOKUP, 13 cases on terms), and every output column of both scan branches holds the value of its own target (R-ROWLOOP, R-AGGPROTO key layout). A subquery column announces the data type of the inner target whose row position it reads, with hidden, repeated and mixed-case inner names (R-VISFILTER). AND / OR announce bool and evaluate to NULL, FALSE or TRUE whatever the operand types (R-3VL)."),
         'assumptions': TRUSTED_ABSINT,
         'quick': [dtype.rule_dtype, dtype.rule_typesafe, dtype.rule_renderable, cr.rule_opresolve, sxk.rule_coalesce,
-                  sxk.rule_implicitcast, sxty.rule_lookup, sxs.rule_aggproto, sx.rule_rowloop, tb.rule_tablefields, cr.rule_visfilter],
+                  sxk.rule_implicitcast, sxty.rule_lookup, sxs.rule_aggproto, sx.rule_rowloop, tb.rule_tablefields, cr.rule_visfilter, sxev.rule_3vl],
         'thorough': [dtype.rule_admitted],
     },
     'C05': {
@@ -213,9 +213,9 @@ PROPS = {
             "memo, and the row generators bump the row id once per yielded row (R-ONCEPERROW); no shared state "
             "(R-SHARED); the five sum aggregators skip NULL, accumulate with the mutator matching their operand type "
             "into a fresh per-group zero (R-AGGCLASS). NOT decided (outside static reach): that Inventory.reduce / "
-            "add_position / convert.* form a homomorphism - beancount's arithmetic over run-time lots and prices."),
+            "add_position / convert.* form a homomorphism - beancount's arithmetic over run-time lots and prices. The evaluator built by the function decorator evaluates every operand once, in order, on every row, also after a NULL operand (R-EVALALL): a `balance` operand is never skipped."),
         'assumptions': TRUSTED_STRUCT,
-        'quick': [sxst.rule_onceperrow, st.rule_shared, sxag.rule_aggclass, sxl.rule_reduce],
+        'quick': [sxst.rule_onceperrow, st.rule_shared, sxag.rule_aggclass, sxl.rule_reduce, sxev.rule_evalall],
         'thorough': [],
     },
     'C17': {
@@ -227,9 +227,9 @@ PROPS = {
             "requirements of the statement); every dereference of a result cell is dominated by a NULL test, by abstract "
             "interpretation with cells typed T|NULL (R-NONEFLOW); non-amount columns are copied by an identity converter "
             "bound to the same index/name/dtype and rows are produced one per input row with converters in column order "
-            "(R-IDENTITY). Does not decide that get_currency_units sums lots nor numeric equality after quantisation."),
+            "(R-IDENTITY). Does not decide that get_currency_units sums lots nor numeric equality after quantisation. Three scenarios of numberify_results: currencies present, an amount-like column without any currency (it disappears), two amount-like columns of one name and type (each decomposed from its own cells). run_query(numberify=True) hands the description and rows of the result and options['dcontext'].build() with its default precision to numberify_results (R-RUNQUERY)."),
         'assumptions': TRUSTED_STRUCT + TRUSTED_ABSINT[:1],
-        'quick': [sxn.rule_siblings, lib.rule_numberify_null, sxn.rule_identity],
+        'quick': [sxn.rule_siblings, lib.rule_numberify_null, sxn.rule_identity, sxn.rule_runquery],
         'thorough': [],
     },
     'C18': {
@@ -254,7 +254,7 @@ PROPS = {
             "consistently to all siblings is rejected as well (R-TRUNCLAW, 14 unit cases); (6) date(<string>) converts through "
             "strptime('%Y-%m-%d') and nothing else, date(y, m, d) is datetime.date(y, m, d), and possign / account_sortkey "
             "classify accounts with the account types of this very ledger (R-CASTDEF). NOT decided (equalities over run-time values, outside static reach): the "
-            "inverse pairs (date_add / date_diff), ISO week numbers, regex results, decimal arithmetic."),
+            "inverse pairs (date_add / date_diff), ISO week numbers, regex results, decimal arithmetic. findfirst, grep and grepn are compared with reference implementations through the outside functions they apply and to what (re.match on each value in sorted order; re.search(pattern, string) and the group taken)."),
         'assumptions': TRUSTED_ABSINT[:1],
         'quick': [lib.rule_casttotal, sxl.rule_defn, sxdb.rule_binfloor, sxdb.rule_trunclaw, sxl.rule_castdef],
         'thorough': [],
@@ -270,7 +270,7 @@ PROPS = {
             "must be empty (R-SHARED); FROM-clause qualifiers are applied to a copy of the table (R-TABLECOPY); the "
             "balance guard lives in the per-scan row context (R-ONCEPERROW); threadsafety is a valid DB-API level "
             "(R-MODCONST). With nothing shared no interleaving needs exploring. Sharing a cursor between threads is "
-            "outside DB-API level 2 and outside the claim."),
+            "outside DB-API level 2 and outside the claim. The census follows locals that alias an object kept on self (a row context created once per connection-owned table and rewound per scan is shared by concurrent scans)."),
         'assumptions': TRUSTED_STRUCT + [
             "the call graph is over-approximated: every function of the non-front-end modules that is not import-only is "
             "treated as execution-reachable",
@@ -309,10 +309,10 @@ PROPS = {
             "(R-GUARDS, R-GUARDSAFE); qualifiers are applied to a copy of the table (R-TABLECOPY); the shell's default "
             "close date is applied exactly to SELECTs with a FROM expression lacking CLOSE (R-DEFAULTCLOSE, 12 cases). NOT "
             "decided: balance preservation, carried-forward Equity postings, balancing of returned transactions - "
-            "properties of beancount.ops.summarize over ledger values. Compiler state is restored around every nested SELECT for every kind of FROM clause and on exceptional exits (R-REENTRANT); PRINT takes its directives from iterating the table, which is what applies the clauses (R-PRINTFILTER); the 33 combinations of FROM expression / OPEN / CLOSE / date order in _compile_from accept or reject as stated and update the table with exactly the clause values (R-FROMCLAUSE)."),
+            "properties of beancount.ops.summarize over ledger values. Compiler state is restored around every nested SELECT for every kind of FROM clause and on exceptional exits (R-REENTRANT); PRINT takes its directives from iterating the table, which is what applies the clauses (R-PRINTFILTER); the 33 combinations of FROM expression / OPEN / CLOSE / date order in _compile_from accept or reject as stated and update the table with exactly the clause values (R-FROMCLAUSE). A clause keyword that the grammar reads (OPEN, CLOSE, CLEAR ...) sets the field of its name on every derivation path (R-FIELDONCE); PRINT is compiled on the table its FROM clause produced (R-FIELDFLOW)."),
         'assumptions': TRUSTED_STRUCT,
         'quick': [cl.rule_callorder, sxk.rule_fromand, sxk.rule_fromclause, sxg.rule_guards, cr.rule_guard_typesafe, sxst.rule_tablecopy,
-                  sxst.rule_defaultclose, sxst.rule_reentrant, sx.rule_printfilter, gr.rule_fieldonce],
+                  sxst.rule_defaultclose, sxst.rule_reentrant, sx.rule_printfilter, gr.rule_fieldonce, cl.rule_fieldflow],
         'thorough': [],
     },
     'C14': {
@@ -325,9 +325,9 @@ PROPS = {
             "(R-EXHAUSTIVE); PRINT collects row.entry for exactly the rows whose filter is absent or true, in order, and "
             "hands the list unmodified to the printer (R-PRINTFILTER, 4 gate cases). The SELECT templates themselves are "
             "string constants and deliberately not matched (a frozen fragment). NOT decided: that printed entries load "
-            "back equal (beancount's printer and parser). The running balance and every other piece of state the expansions touch is private to one execution (R-SHARED), and the FROM qualifiers of all three statements are applied in the fixed order (R-CALLORDER). has_account(), the one function that looks at the directive itself, takes the accounts from getters.get_entry_accounts(context.entry), never branches on the directive type and answers TRUE or FALSE on every path (R-ENTRYFILTER): PRINT evaluates its filter on directives of every type."),
+            "back equal (beancount's printer and parser). The running balance and every other piece of state the expansions touch is private to one execution (R-SHARED), and the FROM qualifiers of all three statements are applied in the fixed order (R-CALLORDER). has_account(), the one function that looks at the directive itself, takes the accounts from getters.get_entry_accounts(context.entry), never branches on the directive type and answers TRUE or FALSE on every path (R-ENTRYFILTER): PRINT evaluates its filter on directives of every type. account_sortkey() classifies with the account types of this ledger (R-ACCTTYPES); execute_print does not hand the ledger's rounding display context to the printer (R-PRINTFILTER print:precision) - a necessary condition of losslessness, the round trip itself is not decided."),
         'assumptions': TRUSTED_STRUCT,
-        'quick': [cl.rule_fieldflow, cr.rule_exhaustive, sx.rule_printfilter, st.rule_shared, cl.rule_callorder, sx.rule_entryfilter],
+        'quick': [cl.rule_fieldflow, cr.rule_exhaustive, sx.rule_printfilter, st.rule_shared, cl.rule_callorder, sx.rule_entryfilter, sxl.rule_accttypes],
         'thorough': [],
     },
     'C15': {
@@ -355,7 +355,7 @@ PROPS = {
             "dot-commands never reach execute(), other lines do unless legacy, legacy names disjoint from statement "
             "keywords (R-DISPATCH); default close date for named queries (R-DEFAULTCLOSE); statement handlers exhaustive "
             "(R-EXHAUSTIVE). Does not decide byte equality of shell output with the renderer (the same function is "
-            "called), pager behaviour or history. _parse_format returns the very value whose membership in FORMATS it tested; parse() builds a new tree per call (R-PARSEFRESH): the shell writes the default CLOSE date into the tree it parsed. On terms: Settings.setstr for every setting x current value (the value goes through the setting's own parser, else its type's parser, else the type; exactly that setting is stored once with the parsed value; nothing is stored when the parser rejects), _parse_bool returns a bool on every path and reads back the spellings .set echoes, main -> BQLShell.__init__ -> do_reload carry every option (the error report is printed iff there are errors and -q was not given). BQLShell.on_Select hands the (numberified iff the setting is on) result of the connection, once, to FORMATS[settings.format] with the shell output, the ledger display context and all settings and prints nothing itself, for empty and non-empty results; on_Journal / on_Balances delegate to it; the text and csv plug-ins forward everything to render_text / render_csv, `(empty)` being the text format's rendering of an empty result (R-SELECTOUT)."),
+            "called), pager behaviour or history. _parse_format returns the very value whose membership in FORMATS it tested; parse() builds a new tree per call (R-PARSEFRESH): the shell writes the default CLOSE date into the tree it parsed. On terms: Settings.setstr for every setting x current value (the value goes through the setting's own parser, else its type's parser, else the type; exactly that setting is stored once with the parsed value; nothing is stored when the parser rejects), _parse_bool returns a bool on every path and reads back the spellings .set echoes, main -> BQLShell.__init__ -> do_reload carry every option (the error report is printed iff there are errors and -q was not given). BQLShell.on_Select hands the (numberified iff the setting is on) result of the connection, once, to FORMATS[settings.format] with the shell output, the ledger display context and all settings and prints nothing itself, for empty and non-empty results; on_Journal / on_Balances delegate to it; the text and csv plug-ins forward everything to render_text / render_csv, `(empty)` being the text format's rendering of an empty result (R-SELECTOUT). `.set` takes its words from shlex.split(arg) with the default rules. The dispatcher is interpreted on terms over dot prefix x command defined x legacy name."),
         'assumptions': TRUSTED_STRUCT,
         'quick': [cl.rule_settings, sxsh.rule_optused, sxsh.rule_selectout, cl.rule_dispatch, sxst.rule_defaultclose, cr.rule_exhaustive, st.rule_parsefresh],
         'thorough': [],
